@@ -1,6 +1,7 @@
 (* Properties_C06.v -- C06: directory counts are exact; structure limits come from the last matching
    rule.  Property theorems only; each is closed by [exact <lemma>] and followed by Print Assumptions.
-   Model: Structure/{Tree,Scan,Limits}.v (the code after fixes/D05-absolute-warn-count-inclusive.patch);
+   Model: Structure/{Tree,Scan,Limits}.v (the code after fixes/D05-absolute-warn-count-inclusive.patch and
+   fixes/D47-relative-depth-from-project-root.patch);
    what is required: Structure/Spec.v and Scan.true_counts.  Glob answers are arbitrary oracle columns
    of the tree, so every statement holds for EVERY glob semantics; no bound on width, depth or counts. *)
 From Coq Require Import ZArith NArith List Bool Permutation.
@@ -50,9 +51,9 @@ Proof. exact zero_forbids. Qed.
 Print Assumptions C06_zero_forbids.
 
 (* -1 (or no limit at all) disables the check, for counts and for depth *)
-Theorem C06_unlimited_disables : forall count abs pct gl l d,
+Theorem C06_unlimited_disables : forall count abs pct gl l p d,
   spec_verdict count (Some UNLIMITED) abs pct gl = Pass /\ spec_verdict count None abs pct gl = Pass /\
-  (l_max_depth l = Some UNLIMITED \/ l_max_depth l = None -> spec_depth_verdict l d = Pass).
+  (l_max_depth l = Some UNLIMITED \/ l_max_depth l = None -> spec_depth_verdict l p d = Pass).
 Proof. exact unlimited_disables. Qed.
 Print Assumptions C06_unlimited_disables.
 
@@ -86,13 +87,30 @@ Theorem C06_no_rule_globals : forall cfg sc, (forall b, In b sc -> b = false) ->
 Proof. exact no_rule_globals. Qed.
 Print Assumptions C06_no_rule_globals.
 
-(* depth is measured from the scope's fixed prefix when relative_depth is set *)
-Theorem C06_relative_depth : forall l d,
-  spec_depth_verdict l d = Fail <->
+(* depth is measured from the scope's fixed prefix when relative_depth is set: the number of components of the
+   normalised (project-relative) directory path minus the number of leading literal components of the scope
+   (base_depth); otherwise it is the distance from the scan root (fixes/D47) *)
+Theorem C06_relative_depth : forall l p d,
+  spec_depth_verdict l p d = Fail <->
   exists limit, l_max_depth l = Some limit /\ limit <> UNLIMITED /\
-    limit < (if l_relative l then Z.max 0 (d - l_base_depth l) else d).
+    limit < (if l_relative l then Z.max 0 (norm_len p - l_base_depth l) else d).
 Proof. exact depth_fail_iff. Qed.
 Print Assumptions C06_relative_depth.
+
+(* hence the relative depth of a directory does not depend on which scan root the walk started from (the
+   figure stats.depth plays no part) ... *)
+Theorem C06_relative_depth_root_independent : forall l p d1 d2,
+  l_relative l = true -> effective_depth l p d1 = effective_depth l p d2.
+Proof. exact relative_depth_root_independent. Qed.
+Print Assumptions C06_relative_depth_root_independent.
+
+(* ... and for the entries of one walk it is the walker's depth shifted by the position of the scan root below
+   the project root (one component for a root named t, none for the project root itself) *)
+Theorem C06_walk_depth_vs_project_depth : forall rp rl t e,
+  proper_below t = true -> In e (entries rp rl t) ->
+  norm_len (e_path e) = e_depth e + norm_len [tname t].
+Proof. exact walk_norm_len. Qed.
+Print Assumptions C06_walk_depth_vs_project_depth.
 
 (* explain reports the limits check uses, and names the rule they come from *)
 Theorem C06_explain_same_limits : forall cfg scope,
@@ -129,3 +147,15 @@ Example C06_example_warn_points :
   spec_verdict 6 (Some 5) None None None = Fail /\ warn_point 100 4589708452245819884 = 8.
 Proof. vm_compute. repeat split; reflexivity. Qed.
 Print Assumptions C06_example_warn_points.
+
+(* the D47 witness: scope src/features/STARSTAR (base depth 2), max_depth 1, relative; the directory
+   src/features/a/b is two levels below the prefix and fails whatever depth the walk reports for it
+   (4 from the project root, 3 from src, 2 from src/features) *)
+Definition l_d47 : limits := mk_limits None None (Some 1) true 2 None None None None None.
+Definition p_d47 : path := [[98]; [97]; [102; 101; 97; 116; 117; 114; 101; 115]; [115; 114; 99]]%N.
+Example C06_example_relative_depth :
+  spec_depth_verdict l_d47 p_d47 4 = Fail /\ spec_depth_verdict l_d47 p_d47 3 = Fail /\ spec_depth_verdict l_d47 p_d47 2 = Fail /\
+  spec_depth_verdict l_d47 (tl p_d47) 3 = Pass /\ effective_depth l_d47 ([46%N] :: p_d47) 0 = 2 /\
+  proper_below ex_tree = true.
+Proof. vm_compute. repeat split; reflexivity. Qed.
+Print Assumptions C06_example_relative_depth.
